@@ -51,7 +51,8 @@ impl ShaGenerator {
 
         let hasher = match current_state {
             Some(jh) => jh.await??,
-            None => return Ok(MerkleHash::default()),
+            // nothing was fed: the digest of the empty input
+            None => Sha256::default(),
         };
 
         let sha256 = hasher.finalize();
